@@ -300,7 +300,10 @@ def run_history(case, ctx):
         if op[0] != "fit":
             ctx.outcome((cls, out_digest(out)))
     st = pub(init, est)
-    return (init["cls"], repr(sorted(init["kw"].items(), key=str)), repr(sorted(st.items())))
+    # which grid bounds the USER has fixed so far is part of the state (a bound learned by fit and a bound of the
+    # same value assigned by the user look alike in the public attributes but must behave differently at the next fit)
+    fixed = sorted(k for k in ("start", "stop") if user_kw(init, ops).get(k) is not None) if init["cls"] == "landscaper" else []
+    return (init["cls"], repr(sorted(init["kw"].items(), key=str)), repr(sorted(st.items())), repr(fixed))
 
 
 def run_case(case, ctx):
